@@ -12,6 +12,10 @@
 //! forever). Requests are injected at the scripted virtual instants; the response channel is
 //! drained with `tokio::time::Instant` stamps. One NDJSON line per observation:
 //!   Reset | Accept(id, at, script) | Emit(id, kind, at, projected event) | Stall(at) | Shutdown(at) | End(at)
+//! NO-TIMEOUT scenarios (`tmode: "max" | "huge"`): the manager is built with request timeout
+//! `Duration::MAX` / `u64::MAX/2` seconds (the spec's NoTimeout): every accepted request must be
+//! answered by the client's own response, also after days of virtual time; a manager task that
+//! dies with accepted requests outstanding is reported (`Anomaly`, requests never answered).
 //! STALL scenarios (`stall: [from, to]`): at virtual instant `from`, after the requests of that
 //! instant have been handed over and the manager has taken them, the clock is moved to `to` in ONE
 //! jump (`tokio::time::advance`) - the manager task is not polled in between, so every timer that
@@ -85,7 +89,10 @@ struct Req {
 }
 
 struct Scenario {
+    /// request timeout in ms (ignored unless `tmode` is "finite")
     t: u64,
+    /// "finite" | "max" (Duration::MAX) | "huge" (u64::MAX / 2 seconds): the spec's NoTimeout
+    tmode: String,
     shut: Option<u64>,
     /// (from, to): one clock jump during which the manager is not scheduled
     stall: Option<(u64, u64)>,
@@ -96,6 +103,7 @@ fn scenario_of(v: &Value) -> Scenario {
     let shut = i(v, "shut");
     Scenario {
         t: i(v, "T") as u64,
+        tmode: v.get("tmode").and_then(|x| x.as_str()).unwrap_or("finite").to_string(),
         shut: (shut >= 0).then_some(shut as u64),
         stall: v.get("stall").and_then(|x| x.as_array()).filter(|a| a.len() == 2).map(|a| {
             (a[0].as_u64().unwrap_or_else(|| usage("stall")), a[1].as_u64().unwrap_or_else(|| usage("stall")))
@@ -124,6 +132,7 @@ fn scenario_of(v: &Value) -> Scenario {
 fn scenario_json(scn: &Scenario) -> Value {
     json!({
         "T": scn.t,
+        "tmode": scn.tmode,
         "shut": scn.shut.map(|x| x as i64).unwrap_or(-1),
         "stall": scn.stall.map(|(a, b)| json!([a, b])).unwrap_or(json!([])),
         "reqs": scn.reqs.iter().map(|r| json!({
@@ -133,6 +142,30 @@ fn scenario_json(scn: &Scenario) -> Value {
             "inst": r.inst, "side": r.side, "price": r.price, "qty": r.qty, "b": r.b, "fill": r.fill,
         })).collect::<Vec<_>>(),
     })
+}
+
+impl Scenario {
+    fn no_timeout(&self) -> bool {
+        self.tmode != "finite"
+    }
+    fn timeout(&self) -> Duration {
+        match self.tmode.as_str() {
+            "finite" => Duration::from_millis(self.t),
+            "max" => Duration::MAX,
+            "huge" => Duration::from_secs(u64::MAX / 2),
+            _ => usage("tmode: finite | max | huge"),
+        }
+    }
+    /// the instant at which something is due for `r` (None: never answered and no timeout)
+    fn due(&self, r: &Req) -> Option<u64> {
+        match (self.no_timeout(), r.d) {
+            (true, d) => d.map(|d| r.at + d),
+            (false, d) => Some(r.at + d.map_or(self.t, |d| d.min(self.t))),
+        }
+    }
+    fn tie(&self, r: &Req) -> bool {
+        !self.no_timeout() && r.d == Some(self.t)
+    }
 }
 
 // ------------------------------------------------------------------------------------------------
@@ -235,7 +268,7 @@ fn anomaly(n: usize, at: u64, what: String) -> Value {
 
 fn accept_line(n: usize, at: u64, r: &Req) -> Value {
     let mut l = blank("Accept", n, at);
-    let s = scenario_json(&Scenario { t: 0, shut: None, stall: None, reqs: vec![r.clone()] });
+    let s = scenario_json(&Scenario { t: 0, tmode: "finite".into(), shut: None, stall: None, reqs: vec![r.clone()] });
     for (k, v) in s["reqs"][0].as_object().unwrap() {
         l[k] = v.clone();
     }
@@ -450,11 +483,15 @@ struct Stats {
     max_outstanding: usize,
     anomalies: usize,
     stalls: usize,
+    never_answered: usize,
+    no_timeout_scenarios: usize,
+    late_responses: usize,
     stalled_over: usize,
 }
 
 async fn run_scenario(n: usize, scn: &Scenario, out: &mut Out, st: &mut Stats) {
     st.scenarios += 1;
+    if scn.no_timeout() { st.no_timeout_scenarios += 1 }
     let map = generate_execution_instrument_map(&instruments(), EXCHANGE).expect("single-exchange map");
     let client = ScriptedClient::default();
     for r in &scn.reqs {
@@ -464,7 +501,7 @@ async fn run_scenario(n: usize, scn: &Scenario, out: &mut Out, st: &mut Stats) {
     let (resp_tx, mut resp_rx) = mpsc_unbounded::<AccountStreamEvent>();
     let manager = ExecutionManager::new(
         req_rx.into_stream(),
-        Duration::from_millis(scn.t),
+        scn.timeout(),
         resp_tx,
         Arc::new(client),
         AccountEventIndexer::new(Arc::new(map)),
@@ -486,7 +523,9 @@ async fn run_scenario(n: usize, scn: &Scenario, out: &mut Out, st: &mut Stats) {
     let mut order: Vec<usize> = (0..scn.reqs.len()).collect();
     order.sort_by_key(|&j| scn.reqs[j].at);
     let mut next = 0usize;
-    let end = scn.reqs.iter().map(|r| r.at + scn.t).chain(scn.shut).chain(scn.stall.map(|(_, to)| to + scn.t)).max().unwrap_or(0)
+    let slack = if scn.no_timeout() { 0 } else { scn.t };
+    let end = scn.reqs.iter().map(|r| scn.due(r).unwrap_or(r.at).max(r.at + slack)).chain(scn.shut)
+        .chain(scn.stall.map(|(_, to)| to + slack)).max().unwrap_or(0)
         + MARGIN_MS;
     let mut stall = scn.stall.filter(|(from, to)| to > from);
     let mut shutdown_sent = false;
@@ -517,8 +556,11 @@ async fn run_scenario(n: usize, scn: &Scenario, out: &mut Out, st: &mut Stats) {
                         let id = line["id"].as_i64().unwrap();
                         outstanding.remove(&id);
                         if line["k"] == "timeout" { st.timeout += 1 } else { st.resp += 1 }
+                        if scn.no_timeout() && line["k"] == "resp" && scn.reqs.iter().any(|r| r.id == id && r.d.is_some_and(|d| d > scn.t)) {
+                            st.late_responses += 1;   // later than any ordinary timeout would have waited
+                        }
                         if let Some(r) = scn.reqs.iter().find(|r| r.id == id) {
-                            if r.d == Some(scn.t) {
+                            if scn.tie(r) {
                                 if line["k"] == "timeout" { st.ties_timeout += 1 } else { st.ties_resp += 1 }
                             }
                         }
@@ -539,7 +581,12 @@ async fn run_scenario(n: usize, scn: &Scenario, out: &mut Out, st: &mut Stats) {
                     }
                     Err(e) => {
                         st.anomalies += 1;
-                        out.line(&anomaly(n, at, format!("ExecutionManager::run panicked: {e}")));
+                        st.never_answered += outstanding.len();
+                        let mut ids: Vec<_> = outstanding.keys().copied().collect();
+                        ids.sort();
+                        out.line(&anomaly(n, at, format!(
+                            "ExecutionManager::run panicked at {at} ms with {} accepted request(s) never answered (c{:?}): {e}",
+                            ids.len(), ids)));
                     }
                 }
                 if ended { break }
@@ -562,7 +609,7 @@ async fn run_scenario(n: usize, scn: &Scenario, out: &mut Out, st: &mut Stats) {
                         continue;
                     }
                     st.requests += 1;
-                    if r.d == Some(scn.t) { st.ties += 1 }
+                    if scn.tie(r) { st.ties += 1 }
                     outstanding.insert(r.id, ());
                     st.max_outstanding = st.max_outstanding.max(outstanding.len());
                     out.line(&accept_line(n, at, r));
@@ -592,7 +639,7 @@ async fn run_scenario(n: usize, scn: &Scenario, out: &mut Out, st: &mut Stats) {
                         // ONE jump: the manager is not polled between `at` and `to`
                         st.stalls += 1;
                         st.stalled_over += scn.reqs.iter().filter(|r| outstanding.contains_key(&r.id)
-                            && r.at + r.d.map_or(scn.t, |d| d.min(scn.t)) < to).count();
+                            && scn.due(r).is_some_and(|due| due < to)).count();
                         tokio::time::advance(Duration::from_millis(to - at)).await;
                         let now = stamp(out, st);
                         out.line(&blank("Stall", n, now));
@@ -616,7 +663,7 @@ async fn run_scenario(n: usize, scn: &Scenario, out: &mut Out, st: &mut Stats) {
 // ------------------------------------------------------------------------------------------------
 // random batches
 // ------------------------------------------------------------------------------------------------
-fn random_scenario(rng: &mut impl Rng, t: u64, max: usize, no_stall: bool) -> Scenario {
+fn random_scenario(rng: &mut impl Rng, t: u64, max: usize, no_stall: bool, tmode: &str) -> Scenario {
     let n = if rng.random_bool(0.5) { max } else { rng.random_range(1..=max) };
     // arrivals inside a window shorter than the timeout: everything can be outstanding at once
     let window = if rng.random_bool(0.7) { t * 6 / 10 } else { t * 3 };
@@ -656,7 +703,16 @@ fn random_scenario(rng: &mut impl Rng, t: u64, max: usize, no_stall: bool) -> Sc
         (from, from + rng.random_range(1..=3 * t))
     });
     let shut = if stall.is_some() { None } else { shut };
-    Scenario { t, shut, stall, reqs }
+    let mut reqs = reqs;
+    if tmode != "finite" {
+        // no timeout: some clients take very long (days of virtual time)
+        for r in reqs.iter_mut() {
+            if r.d.is_some() && rng.random_bool(0.2) {
+                r.d = Some(rng.random_range(1_000..=1_000_000_000));
+            }
+        }
+    }
+    Scenario { t, tmode: tmode.to_string(), shut, stall, reqs }
 }
 
 #[tokio::main(flavor = "current_thread", start_paused = true)]
@@ -678,7 +734,7 @@ async fn main() {
             let max = args.usize("max", 200);
             let mut scn_out = Out::create(args.req("scn-out"));
             for n in 0..args.usize("batches", 10) {
-                let scn = random_scenario(&mut rng, t, max, args.get("stalls") == Some("off"));
+                let scn = random_scenario(&mut rng, t, max, args.get("stalls") == Some("off"), &args.str("tmode", "finite"));
                 scn_out.line(&scenario_json(&scn));
                 run_scenario(n, &scn, &mut out, &mut st).await;
             }
@@ -695,6 +751,8 @@ async fn main() {
                "consecutive_events_at_one_instant": st.same_instant_pairs,
                "scripted_shutdowns": st.shutdowns_scripted, "requests_dropped_by_shutdown": st.dropped_by_shutdown,
                "max_outstanding": st.max_outstanding, "anomalies": st.anomalies,
-               "stalls": st.stalls, "requests_due_inside_a_stall": st.stalled_over})
+               "stalls": st.stalls, "requests_due_inside_a_stall": st.stalled_over,
+               "no_timeout_scenarios": st.no_timeout_scenarios, "no_timeout_responses_after_long_delay": st.late_responses,
+               "accepted_requests_never_answered_because_manager_died": st.never_answered})
     );
 }
